@@ -239,16 +239,18 @@ Inductive host_kind := HostNone | HostPure | HostCombined.
 
 (* `:host` = a colon directly followed by the identifier / function `host`; comments do not
    separate tokens, whitespace does (`: host` is not a pseudo-class) *)
-Fixpoint has_host (l : list node) (after_colon : bool) : bool :=
+(* `colons` = number of colons directly in front (comments aside), saturating at 2: `:host` is the pseudo-class,
+   `::host` a pseudo-element of that name *)
+Fixpoint has_host (l : list node) (colons : nat) : bool :=
   match l with
   | [] => false
   | n :: r =>
-      if is_comment (node_tok n) then has_host r after_colon
+      if is_comment (node_tok n) then has_host r colons
       else match n with
-           | Leaf (TIdent s) _ => (after_colon && str_eqb_ci s s_host) || has_host r false
-           | Block (TFunc s) _ _ _ _ => (after_colon && str_eqb_ci s s_host) || has_host r false
-           | Leaf TColon _ => has_host r true
-           | _ => has_host r false
+           | Leaf (TIdent s) _ => (one_colon colons && str_eqb_ci s s_host) || has_host r O
+           | Block (TFunc s) _ _ _ _ => (one_colon colons && str_eqb_ci s s_host) || has_host r O
+           | Leaf TColon _ => has_host r (colons_next colons)
+           | _ => has_host r O
            end
   end.
 
@@ -266,7 +268,7 @@ Definition host_pure (prelude : list node) : bool :=
    tokens of any other selector (`:host .a`, `.a, :host`, `a:host`) *)
 Definition host_kind_of (prelude : list node) : host_kind :=
   if host_pure prelude then HostPure
-  else if has_host prelude false then HostCombined else HostNone.
+  else if has_host prelude O then HostCombined else HostNone.
 
 Definition attr_sel (name value : str) : list etok :=
   [mke GFree TSquare; mke GFree (TIdent name); mke GFree (TDelim 61); mke GFree (TStr value);
